@@ -9,6 +9,15 @@ CHECKS = {
  "C01": dict(cat="model_checking", ref="§5/C01",
    text="TLC explores exhaustively every valid document (<= MaxSel selection nodes per feature-group config) x operation x variables x benign data overlay over the covering schema S_exec, checks the spec invariants R1_Exec, and prints the big-step prediction (data, resolver calls with parent/args); every printed case is executed by the real engine and compared (data incl. key order, calls exactly once, parent, args, context).",
    technique="TLA+ big-step spec (GQL.tla) + TLC exhaustive generation (MC_exec) + replay of every TLC behaviour into the engine"),
+ "C02": dict(cat="fault_enumeration", ref="§5/C02",
+   text="Every single fault point (field and list-item positions) of the fault-free response tree of every generated request x every applicable failure kind (raise, library error, exception as value, null at non-null, unserialisable leaf, non-list, unknown / foreign runtime type, run-time argument coercion failure), then all pairs, enumerated by TLC; TLC checks R1_Faults (nulled = outermost nearest-nullable positions, non-interference, every nulled position explained, no spurious error) and the engine is run on every case under 4 concurrency configurations: data exactly, error paths/locations/messages/extensions, explained nulls.",
+   technique="TLA+ big-step spec with propagating failures (GQL.tla, MC_faults.tla) + TLC exhaustive single/pair fault enumeration + replay into the engine"),
+ "C08": dict(cat="model_checking", ref="§5/C08",
+   text="Sched.tla models the engine's control flow between idle points (inline-awaited vs gathered siblings, sequential vs concurrent lists, abort on non-null failure); TLC explores every order of releasing the pending resolvers of every generated request (with and without faults) under 6 flag sets and checks deadlock freedom, monotonicity, confluence with the big-step semantics and termination (liveness under fairness); every complete schedule is then driven through the real engine under a hand-driven event loop: response, explained nulls, no resolver started twice, nothing pending or alive at return, termination. Pending-set agreement with the model is recorded (coverage), not part of the verdict.",
+   technique="TLA+ scheduler model (Sched.tla) checked by TLC (invariants + liveness) + replay of every TLC schedule through the engine on a controlled asyncio loop"),
+ "C09": dict(cat="model_checking", ref="§5/C09",
+   text="Same scheduler model restricted to mutation operations: R1_Serial (a root has started resolvers only when all earlier roots are complete) checked by TLC over all schedules x failure placements x 6 flag sets; every schedule replayed: at every idle point at most one root has resolvers in flight, roots are entered in document order, nullable root failure does not stop later roots, non-null root failure nulls data, response keys in document order.",
+   technique="TLA+ scheduler model (Sched.tla, serial executor) + TLC + schedule replay on a controlled asyncio loop"),
 }
 NOT_YET = {}
 
